@@ -315,6 +315,38 @@ fn check<T: DeserializeOwned + PartialEq>(acc: &mut Acc, typ: &str, name: &str, 
     }
 }
 
+/// One text as it is (no re-spelling: the text has number spellings a `Value` cannot keep),
+/// every channel against `from_str`.
+fn check_text<T: DeserializeOwned + PartialEq>(acc: &mut Acc, typ: &str, name: &str, text: &str) {
+    let base: Option<T> = match decode::<T>("from_str", text) {
+        Ok(b) => b,
+        Err(e) => {
+            acc.violation(&format!("panic:{}", e.split(": ").next().unwrap_or("?")), &format!("decoding panicked: {e}"), || json!({"type": typ, "document": name, "text": text}));
+            return;
+        }
+    };
+    acc.outcome(if base.is_some() { "accepted" } else { "rejected" });
+    if base.is_some() {
+        acc.accepting += 1;
+    }
+    for ch in CHANNELS {
+        acc.evaluations += 1;
+        match decode::<T>(ch, text) {
+            Err(e) => acc.violation(&format!("panic:{}", e.split(": ").next().unwrap_or("?")), &format!("decoding panicked: {e}"), || json!({"type": typ, "document": name, "channel": ch, "text": text})),
+            Ok(got) => {
+                if got != base {
+                    let what = match (&base, &got) {
+                        (Some(_), None) => "accepted via from_str but rejected here",
+                        (None, Some(_)) => "rejected via from_str but accepted here",
+                        _ => "decodes to a different value",
+                    };
+                    acc.violation(&format!("channel-dependent:{typ}:{ch}"), &format!("{typ}: {what} (channel {ch}; {name})"), || json!({"type": typ, "document": name, "channel": ch, "as_text": true, "text": text}));
+                }
+            }
+        }
+    }
+}
+
 /// Channels the library itself chooses for one type: `MetadataWrapper::try_from_bytes`,
 /// `MetadataWrapper::from_bytes` with the matching type, `MetablockBuilder::from_raw_metadata`.
 fn check_wrapper_channels(acc: &mut Acc, name: &str, doc: &Value) {
@@ -428,6 +460,7 @@ pub fn run(tier: Tier) -> i32 {
     let max_tokens = if thorough { 400 } else { 24 };
     // ---- collect (type tag, name, document)
     let mut jobs: Vec<(&'static str, String, Value)> = vec![];
+    let mut jobs_text: Vec<(&'static str, String, String)> = vec![];
     for (n, t) in c16::documents(false) {
         let Ok(v) = serde_json::from_str::<Value>(&t) else { continue };
         let is_link = n.starts_with("link/");
@@ -519,6 +552,61 @@ pub fn run(tier: Tier) -> i32 {
             jobs.push(("MetadataWrapper", format!("steps[0].pubkeys[0]:{vn}"), l));
         }
     }
+    // members the models do not know (skipped, whatever their value): every kind of JSON value,
+    // in particular the number classes (fractions, exponents, integers beyond 64 bits), at the top
+    // level and inside the first nested object / array element
+    {
+        let unknown_values: Vec<(&str, &str)> = vec![
+            ("fraction", "0.5"), ("one-point-zero", "1.0"), ("negative-fraction", "-2.25"), ("exponent", "1e3"), ("negative-exponent", "25E-1"), ("beyond-u64", "18446744073709551616"), ("below-i64", "-9223372036854775809"), ("u64-max", "18446744073709551615"), ("i64-min", "-9223372036854775808"),
+            ("huge-exponent", "1e308"), ("minus-zero", "-0"), ("minus-zero-point", "-0.0"), ("null", "null"), ("true", "true"), ("string", "\"s\""), ("empty-array", "[]"), ("empty-object", "{}"), ("array-of-fraction", "[1.5]"), ("nested-fraction", "{\"a\":{\"b\":[2.5e0]}}"),
+        ];
+        let block = world::block_value(&world::sign_link(world::link("s", world::arts(&[("a", 1)]), world::arts(&[("b", 2)])), &signers));
+        let bases: Vec<(&'static str, Value)> = vec![
+            ("MetadataWrapper", serde_json::to_value(&c16::links(false)[40].1).unwrap()),
+            ("LinkMetadata", serde_json::to_value(&c16::links(false)[40].1).unwrap()),
+            ("MetadataWrapper", serde_json::to_value(&la[10].1).unwrap()),
+            ("LayoutMetadata", serde_json::to_value(&la[10].1).unwrap()),
+            ("Metablock", block.clone()),
+            ("Step", serde_json::to_value(world::step("s", 1, &[keys::get("ed1")]).add_expected_product(ArtifactRule::Allow("*".into()))).unwrap()),
+            ("Inspection", serde_json::to_value(Inspection::new("i").run(vec!["true".to_string()].into())).unwrap()),
+            ("Signature", block["signatures"][0].clone()),
+            ("PublicKey", serde_json::to_value(keys::get("ed1").public()).unwrap()),
+            ("PublicKey", serde_json::to_value(keys::get("rsa256a").public()).unwrap()),
+            ("ByProducts", json!({"return-value": 0, "stdout": "", "stderr": ""})),
+            ("PredicateWrapper", preds[150].1.clone()),
+            ("PredicateWrapper", preds[0].1.clone()),
+        ];
+        for (typ, base) in &bases {
+            // insertion points: the document itself, and every object one or two levels down
+            let mut points: Vec<String> = vec![String::new()];
+            if let Some(o) = base.as_object() {
+                for (k, v) in o {
+                    let k = k.replace('~', "~0").replace('/', "~1");
+                    match v {
+                        Value::Object(inner) => {
+                            points.push(format!("/{k}"));
+                            if let Some((k2, Value::Object(_))) = inner.iter().next() {
+                                points.push(format!("/{k}/{}", k2.replace('~', "~0").replace('/', "~1")));
+                            }
+                        }
+                        Value::Array(a) if a.first().map(|x| x.is_object()).unwrap_or(false) => points.push(format!("/{k}/0")),
+                        _ => {}
+                    }
+                }
+            }
+            for pt in &points {
+                for (vn, vt) in &unknown_values {
+                    let mut d = base.clone();
+                    // serde_json::Value cannot hold every spelling (1.0 stays, 1e3 becomes 1000.0):
+                    // the member is spliced into the text instead
+                    let Some(Value::Object(o)) = d.pointer_mut(pt) else { continue };
+                    o.insert("x-unknown-member".into(), json!("@@SPLICE@@"));
+                    let text = d.to_string().replace("\"@@SPLICE@@\"", vt);
+                    jobs_text.push((typ, format!("unknown member at {pt:?} = {vn}"), text));
+                }
+            }
+        }
+    }
     // large documents: a link whose captured output is 70 KB / 1.1 MB
     for size in if thorough { vec![70_000usize, 1_100_000] } else { vec![70_000usize] } {
         let mut l = world::link("s", world::arts(&[("a", 1)]), world::arts(&[("b", 2)]));
@@ -570,8 +658,26 @@ pub fn run(tier: Tier) -> i32 {
         }
     });
     c.acc = Acc::merge_all(accs);
+    let accs = util::par_fold(&jobs_text, Acc::new, |acc, _i, (typ, name, text)| {
+        acc.nontrivial += 1;
+        match *typ {
+            "MetadataWrapper" => check_text::<MetadataWrapper>(acc, typ, name, text),
+            "LinkMetadata" => check_text::<LinkMetadata>(acc, typ, name, text),
+            "LayoutMetadata" => check_text::<LayoutMetadata>(acc, typ, name, text),
+            "Step" => check_text::<Step>(acc, typ, name, text),
+            "Inspection" => check_text::<Inspection>(acc, typ, name, text),
+            "ByProducts" => check_text::<ByProducts>(acc, typ, name, text),
+            "Metablock" => check_text::<Metablock>(acc, typ, name, text),
+            "PublicKey" => check_text::<PublicKey>(acc, typ, name, text),
+            "Signature" => check_text::<Signature>(acc, typ, name, text),
+            "PredicateWrapper" => check_text::<PredicateWrapper>(acc, typ, name, text),
+            _ => {}
+        }
+    });
+    c.acc.merge(Acc::merge_all(accs));
     c.acc.note_n("documents", jobs.len() as u64);
-    c.rule = format!("documents: all C16 text documents (as MetadataWrapper and as Link/LayoutMetadata), every rule form standalone plus malformed rules, steps, inspections, byproducts, signed blocks, all fixture keys and signatures, C19 predicates and statements (through the wrappers and the typed structs), and node-level mutations of four fixtures (mostly rejected); each in spellings compact / pretty / whitespace-heavy / object members in reverse order / all strings \\u-escaped / one string token escaped at a time (up to {max_tokens} tokens per document) x 15 channels (incl. readers that return short reads and readers that are interrupted before every chunk), plus for MetadataWrapper the channels try_from_bytes / from_bytes / MetablockBuilder::from_raw_metadata; byte inputs that are not text (BOM, invalid UTF-8, raw control character, trailing NUL, UTF-16, lone surrogate) through 7 byte channels on every 23rd document; key ids of 8 wrong shapes wherever a key id is read; links with 70 KB (thorough: and 1.1 MB) of captured output; baseline = from_str on the compact spelling. distinct_nontrivial = (type, document) pairs");
+    c.acc.note_n("documents_with_unknown_members", jobs_text.len() as u64);
+    c.rule = format!("documents: all C16 text documents (as MetadataWrapper and as Link/LayoutMetadata), every rule form standalone plus malformed rules, steps, inspections, byproducts, signed blocks, all fixture keys and signatures, C19 predicates and statements (through the wrappers and the typed structs), and node-level mutations of four fixtures (mostly rejected); each in spellings compact / pretty / whitespace-heavy / object members in reverse order / all strings \\u-escaped / one string token escaped at a time (up to {max_tokens} tokens per document) x 15 channels (incl. readers that return short reads and readers that are interrupted before every chunk), plus for MetadataWrapper the channels try_from_bytes / from_bytes / MetablockBuilder::from_raw_metadata; byte inputs that are not text (BOM, invalid UTF-8, raw control character, trailing NUL, UTF-16, lone surrogate) through 7 byte channels on every 23rd document; key ids of 8 wrong shapes wherever a key id is read; 13 documents x insertion points (top level, nested objects, first array element) x 19 values of a member the models do not know (fractions, exponents, integers beyond 64 bits, -0, null, containers), as text, x 15 channels; links with 70 KB (thorough: and 1.1 MB) of captured output; baseline = from_str on the compact spelling. distinct_nontrivial = (type, document) pairs");
     c.bound_completed = "complete within the listed documents".into();
     c.assume("serde_json's own parsing is identical across channels for serde_json::Value (the from_value and Json::deserialize channels go through it)");
     c.finish()
